@@ -120,14 +120,17 @@ def gas_sweeps(comp):
     z = df["z-factor"].to_numpy(dtype=float)
     m = df["pseudopressure"].to_numpy(dtype=float)
     n = len(p)
-    ma = np.asarray(pseudopressure(p, mu, z), dtype=float)
+    # the table's own pressure column goes into the stand-alone transform as it is stored; whole-number pressures are also handed
+    # over as an integer column (what a csv reader returns for 10, 20, 30, ...)
+    p_in = p.astype(np.int64) if (np.all(p == np.round(p)) and int(round(g * 1000)) % 2 == 0) else df["pressure"].to_numpy()
+    ma = np.asarray(pseudopressure(p_in, mu, z), dtype=float)
     # ---- every row of the table
     tpoints = []
     subs: dict[int, np.ndarray] = {}
     for k in range(n):
         b = REBASE_EVERY * ((k - 1) // REBASE_EVERY) if k > 0 else 0
         if b not in subs:
-            subs[b] = np.asarray(pseudopressure(p[b:], mu[b:], z[b:]), dtype=float)
+            subs[b] = np.asarray(pseudopressure(p_in[b:], mu[b:], z[b:]), dtype=float)
         sub = float(subs[b][k - b])
         agree = {"alone": rel15(m[k], ma[k]),
                  "rebase": rel15(sub, m[k] - m[b], scale=max(abs(m[k]), abs(sub)))}
@@ -194,6 +197,8 @@ def random_table(seed: int, i: int):
     z = rng.uniform(0.2, 3.0, n)
     if i % 5 == 2 and n >= 3:
         p = np.geomspace(float(rng.uniform(5, 50)), float(rng.uniform(2000, 15000)), n)   # log-spaced pressure nodes
+    if i % 7 == 3:
+        p = np.cumsum(rng.integers(1, 400, n)).astype(np.int64 if i % 2 else np.int32)   # whole-number pressures in an integer column
     return p, mu, z, bool(i % 3 == 1)
 
 
@@ -201,19 +206,22 @@ def alone_sweep(tab):
     env.import_bluebonnet()
     from bluebonnet.fluids import pseudopressure  # noqa: PLC0415
 
+    p_as_given = np.asarray(tab[0])
+    if p_as_given.dtype.kind != "i":
+        p_as_given = p_as_given.astype(float)
     p, mu, z = (np.asarray(a, dtype=float) for a in tab[:3])
     descending = len(tab) > 3 and bool(tab[3])
     if descending:   # a table listed from high to low pressure is a table with positive entries too
-        p, mu, z = p[::-1].copy(), mu[::-1].copy(), z[::-1].copy()
+        p, mu, z, p_as_given = p[::-1].copy(), mu[::-1].copy(), z[::-1].copy(), p_as_given[::-1].copy()
     n = len(p)
-    m = np.asarray(pseudopressure(p, mu, z), dtype=float)
+    m = np.asarray(pseudopressure(p_as_given.copy(), mu, z), dtype=float)
     fp = [Fraction(float(x)) for x in p]
     fr = [2 * fp[k] / (Fraction(float(mu[k])) * Fraction(float(z[k]))) for k in range(n)]
     ref = [Fraction(0)]
     for k in range(1, n):
         ref.append(ref[-1] + (fp[k] - fp[k - 1]) * (fr[k] + fr[k - 1]) / 2)
     b = n // 3
-    sub = np.asarray(pseudopressure(p[b:], mu[b:], z[b:]), dtype=float)
+    sub = np.asarray(pseudopressure(p_as_given[b:].copy(), mu[b:], z[b:]), dtype=float)
     pts = []
     for k in range(n):
         agree = {"exact": 0 if Fraction(float(m[k])) == ref[k] else quant.e15_of(float(abs(Fraction(float(m[k])) - ref[k])
@@ -228,8 +236,9 @@ def alone_sweep(tab):
                     "raw": raw})
     if descending:   # points are judged in order of increasing pressure: m must increase with pressure either way
         pts.reverse()
-    meta = {"what": f"random {'descending ' if descending else ''}table with {n} rows, p {p[0]:.4g}..{p[-1]:.6g}",
-            "table": [p.tolist(), mu.tolist(), z.tolist()]}
+    meta = {"what": f"random {'descending ' if descending else ''}table with {n} rows, p {p[0]:.4g}..{p[-1]:.6g} "
+                    f"({p_as_given.dtype} pressures)",
+            "table": [p_as_given.tolist(), mu.tolist(), z.tolist()], "pressure_dtype": str(p_as_given.dtype)}
     return [{"profile": "alone", "meta": meta, "points": pts}]
 
 
@@ -241,9 +250,10 @@ def compositions(ctx: core.Ctx):
     rng = np.random.default_rng([ctx.seed, 8])
     if ctx.quick:
         return [(0.65, 200.0, 0.03, 0.012, 0.018, "dry gas", 3000, 40),
-                (0.8, 120.0, 0.0, 0.0, 0.0, "wet gas", 2555, 40),      # maximum pressures that are not multiples of the step
-                (1.0, 300.0, 0.05, 0.01, 0.04, "wet gas", 995.5, 40),
-                (0.7, 250.0, 0.0, 0.0, 0.0, "dry gas", 15300, 30)]       # a maximum above the default table range
+                (0.8, 120.75, 0.0, 0.0, 0.0, "wet gas", 2555, 40),     # maximum pressures that are not multiples of the step
+                (1.0, 299.9, 0.05, 0.01, 0.04, "wet gas", 995.5, 40),  # reservoir temperatures are real numbers
+                (0.7, 250.0, 0.0, 0.0, 0.0, "dry gas", 15300, 30),      # a maximum above the default table range
+                (0.9, 181.4, 0.02, 0.0, 0.0, "wet gas", 6000, 30)]
     comps = [(0.65, 200.0, 0.03, 0.012, 0.018, "dry gas", 14000, 80)]     # default table size
     for g in (0.56, 0.7, 0.9, 1.2):
         for T in (80.0, 180.0, 400.0):
